@@ -24,7 +24,8 @@ META = {
                   "sessions; window content, order, multiplicity, id, field equality, completeness at quiescence, search "
                   "pages and lookups are decided by TLC per event.",
     "level_note": "Narrowed: compared fields are index, reception time, timestamp, ecu/apid/ctid, message counter and payload "
-                  "text (hash); filters are literal ecu/apid/ctid criteria (positive OR / negative veto); a query is required "
+                  "text (hash); filters are literal ecu/apid/ctid criteria in filter sets over all kind combinations (positive OR, negative veto, "
+                  "event AND, disabled and marker filters inert - the semantics of match_filters); a query is required "
                   "to be complete only when created on a completely parsed file (a query created during parsing ends when a "
                   "loop iteration sees no new message); on the big uniform log (70 000 messages, windows larger than 64 Ki) "
                   "only frame summaries are checked: the frames tile the window exactly, in order, each position once and its window is changed only while the session is paused; searches "
@@ -123,20 +124,24 @@ def check(ctx):
     res = c.tlc_must_pass(ctx, "streams-model", "mc/MCRemoteStreams.tla",
                           "RemoteStreams_quick.cfg" if quick else "RemoteStreams_thorough.cfg", timeout=3000)
     scns = c.scn_lines(res)
-    # sample: prefer scenarios that deliver something, keep all kinds / unfiltered / changes represented
+    # sample round-robin over (stream/query, created late, window change, filter-set shape, delivers something): every shape of
+    # filter set (pos / neg / event / their combinations / disabled / marker / empty) is replayed for streams and queries;
+    # scenarios that deliver something are taken twice as often
     groups = collections.defaultdict(list)
     for s in scns:
-        key = (s["kind"], s["late"], bool(s["chg"]), s["unfiltered"], any(len(d) > 0 for d in s["pred"]["d"]))
+        key = (s["kind"], s["late"], bool(s["chg"]), s["shape"], any(len(d) > 0 for d in s["pred"]["d"]))
         groups[key].append(s)
-    cap = 320 if quick else 4000
-    per = max(4, cap // max(1, len(groups)))
+    cap = 330 if quick else 4000
+    order = sorted(groups, key=str)
+    for key in order:
+        rnd.shuffle(groups[key])
+    rnd.shuffle(order)
     picked = []
-    for key in sorted(groups, key=str):
-        g = groups[key]
-        rnd.shuffle(g)
-        picked += g[:per * (2 if key[4] else 1)]
-    rnd.shuffle(picked)
-    picked = picked[:cap]
+    while len(picked) < cap and any(groups[k] for k in order):
+        for key in order:
+            for _ in range(2 if key[4] else 1):
+                if groups[key] and len(picked) < cap:
+                    picked.append(groups[key].pop())
     sscn = ctx.path("srv-scenarios.ndjson")
     with open(sscn, "w") as f:
         for s in picked:
@@ -169,6 +174,7 @@ def check(ctx):
     for k, evs in srv_cases.items():
         hit = False
         multi = collections.Counter()
+        combo = ""
         for e in evs:
             if e["ev"] == "bin_msgs":
                 if e["n"]:
@@ -185,6 +191,8 @@ def check(ctx):
                     paths["frame_over_64Ki_msgs"] += 1
             elif e["ev"] == "ok_search":
                 paths["search_page"] += 1
+                paths["search_on_" + combo] += 1
+                paths["search_with_" + ("+".join(sorted({f["k"] for f in e["filt"] if f["on"] and f["k"] != "marker"})) or "none")] += 1
                 paths["search_page_size_%d" % min(e["max"], 6)] += 1
                 if e["idxs"]:
                     hit = True
@@ -192,13 +200,22 @@ def check(ctx):
                     paths["search_continued"] += 1
             elif e["ev"] in ("ok_change", "quiescent", "ok_bsearch", "err_bsearch", "stopped", "ok_stream"):
                 paths[e["ev"]] += 1
+                if e["ev"] == "ok_bsearch":
+                    paths["lookup_on_" + combo] += 1
                 if e["ev"] == "ok_stream":
                     paths["kind_" + e["kind"]] += 1
                     if not e["parsed"]:
                         paths["created_during_parsing"] += 1
                     if e["win"][0] >= e["win"][1]:
                         paths["window_empty"] += 1
-                    if not e["filt"]:
+                    # which kinds of enabled filters make up the stream's filter set
+                    combo = "+".join(sorted({f["k"] for f in e["filt"] if f["on"] and f["k"] != "marker"})) or "none"
+                    paths["filters_%s_%s" % (e["kind"], combo)] += 1
+                    if any(not f["on"] for f in e["filt"]):
+                        paths["filters_with_disabled"] += 1
+                    if any(f["k"] == "marker" for f in e["filt"]):
+                        paths["filters_with_marker"] += 1
+                    if combo == "none":
                         paths["unfiltered"] += 1
         paths["window_in_several_frames"] += sum(1 for n in multi.values() if n >= 2)   # batch boundaries inside a window
         if hit:
@@ -220,7 +237,10 @@ def check(ctx):
     ctx.extra["path_hits"] = dict(sorted(paths.items()))
     ctx.extra["kf_switches"] = sw
     needed = ["data_frames", "query_end_marker", "ok_change", "quiescent", "search_continued", "ok_bsearch", "created_during_parsing",
-              "window_empty", "window_in_several_frames", "big_window_frames", "lib_stream", "lib_query", "lib_grow"] + ["search_page_size_%d" % k for k in range(1, 6)]
+              "window_empty", "window_in_several_frames", "big_window_frames", "filters_with_disabled", "filters_with_marker",
+              "search_on_event", "lookup_on_event", "search_with_event", "lib_stream", "lib_query", "lib_grow"] + ["search_page_size_%d" % k for k in range(1, 6)]
+    for kd in ("stream", "query"):      # every combination of filter kinds, for streams and for queries
+        needed += ["filters_%s_%s" % (kd, cb) for cb in ("none", "pos", "neg", "event", "event+pos", "event+neg", "neg+pos", "event+neg+pos")]
     missing = [n for n in needed if paths[n] == 0]
     for k in list(srv_cases)[:1] + list(srv_cases)[-2:]:
         ctx.add_sample({"layer": "server", "case": k, "trace": [({kk: vv for kk, vv in e.items() if kk != "msgs"}) for e in srv_cases[k][:12]]})
